@@ -32,3 +32,28 @@ pub fn chain_refs<'a, T>(a: &'a Vec<T>, b: &'a Vec<T>) -> (r: Vec<&'a T>)
     ensures r.len() == a.len() + b.len(),
         forall|i: int| 0 <= i < r.len() ==> *(#[trigger] r[i]) == (a@ + b@)[i],
 { a.iter().chain(b.iter()).collect() }
+// pairs of u64 as BTreeMap keys (lexicographic Ord of tuples is a total order consistent with Eq)
+pub broadcast axiom fn ax_pair_u64_cmp() ensures #[trigger] vstd::std_specs::btree::key_obeys_cmp_spec::<(u64, u64)>();
+// a.iter().zip(b.iter()).zip(c.iter()): element-wise, shortest length
+#[verifier::external_body]
+pub fn zip_zip<'a, A, B, C>(a: &'a Vec<A>, b: &'a Vec<B>, c: &'a Vec<C>) -> (r: Vec<((&'a A, &'a B), &'a C)>)
+    ensures r.len() == (if a.len() <= b.len() && a.len() <= c.len() { a.len() } else if b.len() <= c.len() { b.len() } else { c.len() }),
+        forall|k: int| 0 <= k < r.len() ==> *(#[trigger] r[k]).0.0 == a[k] && *r[k].0.1 == b[k] && *r[k].1 == c[k]
+{ a.iter().zip(b.iter()).zip(c.iter()).collect() }
+// assert_eq!(a, b) in executable code: panics when the values differ, so the call carries the obligation that they are equal
+pub fn vassert_eq(a: usize, b: usize) requires a == b {}
+// BTreeMap::into_iter() (also `for (k, v) in map`): the entries in ascending key order, each exactly once
+#[verifier::external_body]
+pub fn btree_into_vec2(m: BTreeMap<(u64, u64), F64>) -> (r: Vec<((u64, u64), F64)>)
+    ensures r.len() == m@.len(),
+        forall|i: int| 0 <= i < r.len() ==> m@.contains_key((#[trigger] r[i]).0) && m@[r[i].0] == r[i].1,
+        forall|i: int, j: int| 0 <= i < j < r.len() ==> (#[trigger] r[i]).0 != (#[trigger] r[j]).0,
+        forall|k: (u64, u64)| #[trigger] m@.contains_key(k) ==> exists|i: int| 0 <= i < r.len() && (#[trigger] r[i]).0 == k,
+{ m.into_iter().collect() }
+// iter.collect::<BTreeMap<_, _>>(): the pairs inserted one after the other
+#[verifier::external_body]
+pub fn btreemap_collect2(it: Vec<((u64, u64), F64)>) -> (r: BTreeMap<(u64, u64), F64>)
+    ensures forall|i: int| 0 <= i < it.len() ==> r@.contains_key((#[trigger] it[i]).0),
+        // every key comes from a pair, and holds the value of the LAST pair with that key
+        forall|k: (u64, u64)| #[trigger] r@.contains_key(k) ==> exists|i: int| 0 <= i < it.len() && (#[trigger] it[i]).0 == k && it[i].1 == r@[k] && forall|j: int| i < j < it.len() ==> (#[trigger] it[j]).0 != k,
+{ it.into_iter().collect() }
